@@ -123,3 +123,24 @@ type OpenOption = gvfs.OpenOption
 
 // SnapshotFlagFilename is the name of the flag file of a finalised snapshot directory.
 var SnapshotFlagFilename = fileutil.SnapshotFlagFilename
+
+// Injector, Op and WrapFS: the operation-intercepting file system the log
+// stores accept (vfs.ErrorFS).
+type (
+	// Injector is called before every file system operation.
+	Injector = gvfs.Injector
+	// Op is the kind of a file system operation.
+	Op = gvfs.Op
+)
+
+const (
+	// OpRead is a read operation.
+	OpRead = gvfs.OpRead
+	// OpWrite is a write operation.
+	OpWrite = gvfs.OpWrite
+	// OpSync is an fsync.
+	OpSync = gvfs.OpSync
+)
+
+// WrapFS returns fs with inj called before every operation.
+func WrapFS(fs FS, inj Injector) FS { return vfs.Wrap(fs, inj) }
